@@ -26,13 +26,14 @@ type CoreSink func(id, caseLine, implLine string)
 
 // CoreStats counts emitted and skipped cases.
 type CoreStats struct {
-	Emitted map[string]int // by kind S / A / C
-	Skipped map[string]int // by reason
-	MsgIn   map[int]int    // message types consumed by emitted step cases
+	Emitted      map[string]int // by kind S / A / C
+	Skipped      map[string]int // by reason
+	MsgIn        map[int]int    // message types consumed by emitted step cases
+	MsgInUnknown map[int]int    // ... of these, from a sender that is neither voter nor learner in the receiver's configuration
 }
 
 func newCoreStats() *CoreStats {
-	return &CoreStats{Emitted: map[string]int{}, Skipped: map[string]int{}, MsgIn: map[int]int{}}
+	return &CoreStats{Emitted: map[string]int{}, Skipped: map[string]int{}, MsgIn: map[int]int{}, MsgInUnknown: map[int]int{}}
 }
 
 type qmsg struct {
@@ -447,8 +448,18 @@ func (c *Cluster) coreStep(nd *nodeRT, ev Event, run func() (raft.Ready, bool)) 
 		out := fmt.Sprintf("%s plead=%d used=%d %s", showState(post), post.PrevLead, b01(consumed || nprops == 0), showReady(rdp))
 		c.Core(id, id+"\tS\t"+w.b.String(), id+"\t"+out)
 		c.CoreStats.Emitted["S"]++
+		member := map[uint64]bool{}
+		for _, p := range pre.Prs {
+			member[p.ID] = true
+		}
+		for _, p := range pre.LearnerPrs {
+			member[p.ID] = true
+		}
 		for _, q := range in {
 			c.CoreStats.MsgIn[int(q.m.Type)]++
+			if !q.local && !member[q.m.From] {
+				c.CoreStats.MsgInUnknown[int(q.m.Type)]++
+			}
 		}
 	}
 	nd.afterStepQueues()
